@@ -224,6 +224,25 @@ func (r *FnRun) exec(st *State, fr *frame, b *ssa.BasicBlock, i int) {
 			st.regs[x] = r.fieldAddr(st, fr, x, base, x.Field)
 		case *ssa.Field:
 			base := r.val(st, x.X)
+			if x.Field >= len(base.F) {
+				// field of a struct value the model keeps abstract (a type of another module): a function of the value
+				if base.K == KInt {
+					fn := mangle("uf:field." + r.tn(x.X.Type()) + "." + fmt.Sprint(x.Field))
+					switch r.eng.shape(x.Type()) {
+					case KInt:
+						r.eng.declare("(declare-fun " + fn + " (Int) Int)")
+						st.regs[x] = vInt("("+fn+" "+base.S+")", x.Type())
+						break
+					default:
+						r.abstractNote(st, "field read of an abstract struct value")
+						st.regs[x] = st.sym("absfield", x.Type())
+					}
+				} else {
+					r.abstractNote(st, "field read of an abstract struct value")
+					st.regs[x] = st.sym("absfield", x.Type())
+				}
+				break
+			}
 			st.regs[x] = base.F[x.Field]
 		case *ssa.IndexAddr:
 			st.regs[x] = r.indexAddr(st, fr, x)
@@ -299,6 +318,23 @@ func (r *FnRun) exec(st *State, fr *frame, b *ssa.BasicBlock, i int) {
 			r.execNext(st, fr, b, i, x)
 			return
 		case *ssa.Call:
+			if fr.top {
+				if name := r.calleeName(&x.Call); name != "" {
+					var as []*V
+					if x.Call.IsInvoke() {
+						as = append(as, r.val(st, x.Call.Value))
+					}
+					for _, a := range x.Call.Args {
+						as = append(as, r.val(st, a))
+					}
+					la := make(map[string][]*V, len(st.lastArgs)+1)
+					for k, v := range st.lastArgs {
+						la[k] = v
+					}
+					la[name] = as
+					st.lastArgs = la
+				}
+			}
 			r.doCall(st, fr, x, &x.Call, func(st2 *State, res *V) {
 				st2.regs[x] = res
 				if fr.top {
@@ -1046,6 +1082,35 @@ func (r *FnRun) jump(st *State, fr *frame, from, to *ssa.BasicBlock) {
 		if len(invs) == 0 && fr.top && r.fc != nil && !r.fc.Trusted {
 			r.noInvLoops = append(r.noInvLoops, fmt.Sprintf("%s loop %d", fr.fn.Name(), ord))
 		}
+		if fr.top && r.loopModular(ord) {
+			anchor := fmt.Sprintf("loop%d(modular)", ord)
+			for _, ds := range st.deferStacks {
+				if len(ds) != 0 {
+					r.errs = append(r.errs, fmt.Sprintf("%s: modular loop %d reached with pending defers", r.relName, ord))
+					return
+				}
+			}
+			if r.loopDone == nil {
+				r.loopDone = map[*ssa.BasicBlock]bool{}
+			}
+			if r.loopDone[to] {
+				return
+			}
+			r.loopDone[to] = true
+			g := r.genericState(st)
+			g.prev = from
+			r.rangeIndexBound(g, to)
+			for _, c := range invs {
+				t, err := r.evalClause(g, fr, c, r.rangeIndexVars(g, to), "loop invariant")
+				if err != nil {
+					continue
+				}
+				g.assume(t)
+			}
+			g.trail = []string{anchor}
+			r.exec(g, fr, to, 0)
+			return
+		}
 		ms := r.modsetBlocks(fr.fn, li.blocks[to])
 		if fr.fc != nil {
 			for _, g := range fr.fc.Ghosts {
@@ -1776,6 +1841,7 @@ func (r *FnRun) atCut(st *State, fr *frame, b *ssa.BasicBlock, i int, ins ssa.In
 func (r *FnRun) genericState(st *State) *State {
 	g := r.entry.clone()
 	g.stack = st.stack
+	g.lastArgs = nil
 	g.depth = st.depth
 	g.prev = st.prev
 	g.callOrd = map[string]int{}
@@ -1830,6 +1896,46 @@ func (r *FnRun) genericState(st *State) *State {
 			g.regs[x.k] = g.sym("cut."+x.n, x.k.Type())
 		}()
 	}
+	// registers that are pure functions of other registers keep that relation (e.g. the length a range loop
+	// computed in its preheader is the length of the slice it indexes)
+	for _, b := range r.fn.Blocks {
+		for _, ins := range b.Instrs {
+			v, isVal := ins.(ssa.Value)
+			if !isVal {
+				continue
+			}
+			if _, had := st.regs[v]; !had {
+				continue
+			}
+			if _, fromEntry := r.entry.regs[v]; fromEntry {
+				continue
+			}
+			switch x := ins.(type) {
+			case *ssa.Call:
+				bi, ok := x.Call.Value.(*ssa.Builtin)
+				if !ok || len(x.Call.Args) != 1 || (bi.Name() != "len" && bi.Name() != "cap") {
+					continue
+				}
+				a, ok := g.regs[x.Call.Args[0]]
+				if !ok || a == nil || a.K != KSlice {
+					continue
+				}
+				if bi.Name() == "len" {
+					g.regs[v] = vInt(a.Len, x.Type())
+				} else {
+					g.regs[v] = vInt(a.Cap, x.Type())
+				}
+			case *ssa.Extract:
+				if t, ok := g.regs[x.Tuple]; ok && t != nil && t.K == KTuple && x.Index < len(t.F) {
+					g.regs[v] = t.F[x.Index]
+				}
+			case *ssa.Field:
+				if t, ok := g.regs[x.X]; ok && t != nil && t.K == KStruct && x.Field < len(t.F) {
+					g.regs[v] = t.F[x.Field]
+				}
+			}
+		}
+	}
 	var cells []*ssa.Alloc
 	for a := range st.cells {
 		cells = append(cells, a)
@@ -1843,6 +1949,10 @@ func (r *FnRun) genericState(st *State) *State {
 			}
 		}
 		g.cells[a] = g.sym("cut."+a.Comment, a.Type().Underlying().(*types.Pointer).Elem())
+		if a.Comment == "rangeindex" {
+			// the hidden index of a range loop starts at -1 and is only ever incremented by the loop head
+			g.assume("(>= " + g.cells[a].S + " (- 1))")
+		}
 	}
 	return g
 }
@@ -1975,4 +2085,17 @@ func (r *FnRun) havocFailureCounts(st *State, only map[string]bool) {
 		st.assume("(>= " + n + " 0)")
 		st.ghost["fail:"+name] = n
 	}
+}
+
+
+func (r *FnRun) loopModular(ord int) bool {
+	if r.fc == nil {
+		return false
+	}
+	for _, c := range r.fc.Clauses {
+		if c.Kind == "loopmodular" && c.N == ord {
+			return true
+		}
+	}
+	return false
 }
